@@ -14,7 +14,7 @@ missed=[s for s,m in metas.items() if 'issed' in m['caught_by'].get(m['property'
 text=f'''
 ### 14.8 Self-validation with independently written breaking changes (seeded/)
 
-{n} changes (one aimed at each of the 19 properties, and a second one for C02, C03, C04, C05, C07, C13) were written by
+{n} changes (one aimed at each of the 19 properties, and a second one for C02-C05, C07-C09, C11-C13, C15, C16) were written by
 fresh sub-agents that were given only the text of one property and a scratch worktree of /repo under /tmp (nothing from
 /verif); each was asked for a change that compiles, keeps the 268 pinned tests green and needs something specific to
 manifest, with a demonstration that fails with the change and passes without it. Every change was re-confirmed by
@@ -22,8 +22,8 @@ manifest, with a demonstration that fails with the change and passes without it.
 stored as `seeded/<id>/{{patch.diff, seed_demo.rs (or .sh), README.md, meta.json}}`; the worktrees and their build output
 were removed afterwards. To run the checks against a change `tools/run_seed.sh <id> <checks>` applies the patch to /repo
 (`git apply`), runs `./check`, and undoes it (`git checkout -- .`); nothing of this was ever committed to /repo. No
-request was refused by the permission system or a safety layer, by a sub-agent or by me. Two second-round agents (C01,
-C10) came back with the same change as the first round (alpha high byte; sequence number counting bKGD): not stored twice.
+request was refused by the permission system or a safety layer, by a sub-agent or by me. Seven second-round agents (C01, C06, C10, C14, C17, C18, C19) came back with the same change as an earlier one (for C06: the
+change already stored for C17): not stored twice.
 
 Result: **all {n} are reported by the check of the property they target**, {n-len(missed)} at the first run and {len(missed)} only after
 the check was strengthened (the miss and the remedy are in the table; every remedy is a wider generator, a new stream or
@@ -58,6 +58,16 @@ What the misses taught (and what was changed):
 * **C07** never saw a zero-length IDAT chunk (legal, and what makes `from_slice` record two position markers): the
   harness encoder now emits empty IDAT chunks in front of / between / after the parts in a fraction of all generated files
   (e2e, metadata and front-end corpora).
+* **C09** generated destination options one at a time: `--pretend` is now combined with `--dir` / `--out` / `--stdout`
+  in either order and every run is checked for files appearing anywhere but at the destination. The routing rule was
+  not in the Lean model at all: added (`fileOut`, four routing theorems and the case split `route_cases`) and tied to
+  the code through a new dump hook (the collected (input, output) pairs), 14 distinct flag combinations per run.
+* **C08** judged the switches only on files without metadata, while `preprocess_chunks` rewrites the options from the
+  chunks it finds: the switch oracle now also runs on the metadata generator's files (recognised / other / broken
+  profiles, sRGB, strip policies); Lean: `prepass_only_restricts` (the pre-pass never turns a permission on).
+* **C12** collapsed repeated `write` calls into the model's single call and put the fault on the first one only: a
+  line-buffered standard output keeps the tail after the last newline byte back, so the last system call is a different
+  failure point - faults now go on the first and the last system call of every collapsed call (all, thorough tier).
 * **C13** ran its expiry sweep on files without metadata, and the strict decoder did not check the layout of
   bKGD / sBIT / hIST against colour type, depth and palette (C02: "every structural constraint of the specification that
   the input satisfies"): a third of the deadline cases now carry such chunks under a keeping policy and the decoder
